@@ -241,6 +241,10 @@ func init() {
 							st, pg, timing, side := st, pg, timing, side
 							var rec func(hist []Op, prevHref string)
 							rec = func(hist []Op, prevHref string) {
+								h0 := hist
+								c.CurCase(func() *fw.Case {
+									return &fw.Case{Kind: "c13", S: fw.Strs(st, pg), N: []int{timing, side}, Ops: opsToQS(append([]Op{}, h0...))}
+								})
 								c.Eval()
 								c.R.Transitions++
 								c.R.Traces++
